@@ -267,6 +267,55 @@ Proof.
   - rewrite forallb_app, D. reflexivity.
 Qed.
 
+(* the part of TInv that also holds for the main runner of the parallel flavours (where execute and
+   teardown reports are forwarded through the result queue) *)
+Record PT (r : rstate) : Prop := {
+  pt_code : r_final r = code_of (r_tr r);
+  pt_pair : paired (r_tr r)
+}.
+Lemma PT_with_d r d : PT r -> PT (with_d r d).
+Proof. intros [A C]. split; auto. Qed.
+Lemma PT_emit_plain r evs : PT r -> forallb (fun e => negb (is_pair_ev e)) evs = true -> PT (emit r evs).
+Proof.
+  intros [A C] Hp. unfold emit. split; simpl.
+  - rewrite code_of_noFail; auto.
+    clear -Hp. induction evs as [|e evs IH]; simpl in *; auto.
+    apply andb_true_iff in Hp. destruct Hp as [H1 H2]. destruct e; simpl in *; try discriminate; auto.
+  - apply paired_app_plain; auto.
+Qed.
+Lemma PT_handle_error_gen st r k kd : PT r -> PT (handle_error_gen tasks continue_ st r k kd).
+Proof.
+  intros [A C]. unfold handle_error_gen. split; simpl.
+  - rewrite code_of_fail, A. reflexivity.
+  - apply p_fail. exact C.
+Qed.
+Lemma PT_select r k b r1 : PT r -> select_task tasks continue_ always r k = (b, r1) -> PT r1.
+Proof.
+  apply (select_task_pres PT k).
+  - intros r0 s H. apply PT_with_d. exact H.
+  - intros r0 e H [<-|[<-|[<-|[]]]]; apply PT_emit_plain; auto.
+  - intros r0 kd H. apply PT_handle_error_gen; auto.
+Qed.
+Lemma PT_start r k : PT r -> PT (start_task tasks r k).
+Proof.
+  intros [A C]. unfold start_task. split; simpl.
+  - rewrite code_of_noFail; auto.
+  - apply p_plain; auto.
+Qed.
+Lemma PT_process r k : PT r -> PT (process_result tasks continue_ r k).
+Proof.
+  intros H. unfold process_result. destruct (t_outcome (get_task k)); auto; try apply PT_handle_error_gen; auto.
+  destruct H as [A C]. unfold emit, with_d. split; simpl.
+  - rewrite code_of_noFail; auto.
+  - apply p_succ. exact C.
+Qed.
+Lemma PT_finish r : PT r -> PT (finish r).
+Proof.
+  intros H. unfold finish. apply PT_emit_plain; auto. simpl. induction (rev (r_td r)); simpl; auto.
+Qed.
+Lemma PT_init sel : PT (r_init sel).
+Proof. split; simpl; [reflexivity|constructor]. Qed.
+
 (* the state in which the loop stops: finish() is applied to a state satisfying the invariant *)
 Lemma serial_TInv fuel : forall r last r' s,
   TInv r -> serial tasks wake_rank calc_rank continue_ always fuel r last = (r', s) ->
